@@ -11,7 +11,7 @@ for d in sorted(glob.glob("/verif/seeded/*/meta.json")):
     rec = st.get("seeded/" + sid)
     props = m["property"] if isinstance(m["property"], list) else [m["property"]]
     if m.get("neutralised"):
-        caught = "neutralised by fix 7efac9f (see meta.json)"
+        caught = "neutralised by a later repository fix (see meta.json)"
     elif rec is None:
         caught = "?"
     else:
